@@ -1,11 +1,21 @@
 // Copyright Amazon.com, Inc. or its affiliates. All Rights Reserved.
 // SPDX-License-Identifier: Apache-2.0
 
+#[cfg(not(metrique_verif))]
 use std::{
     marker::PhantomData,
     ops::AddAssign,
     sync::{Arc, Mutex},
     time::{Duration, UNIX_EPOCH},
+};
+#[cfg(metrique_verif)]
+use ::{
+    detsim::sync::{Arc, Mutex},
+    std::{
+        marker::PhantomData,
+        ops::AddAssign,
+        time::{Duration, UNIX_EPOCH},
+    },
 };
 
 use metrique_core::CloseValue;
